@@ -14,7 +14,7 @@
 EXTENDS IndexOps, TLC, Json
 
 CONSTANTS MinSteps, MaxSteps,
-          FamStreams, FamBase, FamGroups,  \* families: Stream counts / number of shapes / Record-group counts (empty = off)
+          FamStreams, FamBase, FamGroups, ParkA, ParkB,  \* families: Stream counts / number of shapes / Record-group counts (empty = off)
           CommonU, CommonV,   \* value classes of the extra (weighting) append actions of the random walks
           Volume      \* TRUE: also offer the macro calls appendn / catn (many Records / Streams at once)
 VARIABLES st, hist, done
@@ -43,6 +43,8 @@ TinyF == {F(1), F(10)}
 NoValues == {}
 FamStreamsQ == 5..6   FamGroupsQ == {5}
 FamStreamsT == 5..8   FamGroupsT == {5, 6}
+ParkAQ == {300, 600, 1100, 1600, 2100}   ParkBQ == {100, 500, 1000}
+ParkAT == {300, 512, 600, 1024, 1100, 1536, 1600, 2048, 2100, 2600}   ParkBT == {1, 100, 500, 512, 1000, 1100}
 
 \* volume plans: Record counts around INDEX_GROUP_SIZE = 512 and its multiples, Stream counts around 2^k
 \* (the rotations of the sequentially filled AVL trees of index.c depend on the node count only)
@@ -66,8 +68,13 @@ ASSUME \A n \in 1..3 : \A f \in {NoFlags, F(1)} : \A d \in {EmptyIndex, DoFlags(
 \* Record groups that are all-empty or all-non-empty; the observation then locates every boundary -1/0/+1.
 CandStreams(s) == UNION {{Op("streams", 1, FamBase, Zero, Zero, n, m, NoFlags) : n \in 0..(IPow(FamBase, m) - 1)} : m \in FamStreams}
 CandGroups(s) == UNION {{Op("groups", 1, 0, Zero, Zero, n, m, NoFlags) : n \in 0..(IPow(2, m) - 1)} : m \in FamGroups}
+\* Iterator parked in every Record group (positions around the multiples of 512 and at both ends) of ParkA Records,
+\* ParkB more Records appended (opening 0, 1 or 2 new groups, odd and even group counts), then the rest iterated.
+ParkPos(a) == {t \in 1..a : t <= 2 \/ t >= a - 1 \/ (t % 512) \in {0, 1, 511}}
+CandPark(s) == UNION {{Op("park", 1, mode, AddS(USizeI(s.reg[1]), t - 1), BigOf(t), a, b, NoFlags) :
+                          t \in ParkPos(a), b \in ParkB, mode \in {ANY, BLOCK, NONEMPTY}} : a \in ParkA}
 \* (a family call ends the history)
-FamDone == \E n \in 1..Len(hist) : hist[n].op \in {"streams", "groups"}
+FamDone == \E n \in 1..Len(hist) : hist[n].op \in {"streams", "groups", "park"}
 Running == ~done /\ Len(hist) < MaxSteps /\ ~FamDone
 Do(o) == st' = Apply(st, o).st /\ hist' = Append(hist, o) /\ UNCHANGED done
 Init == st = St0 /\ hist = <<>> /\ done = FALSE
@@ -93,9 +100,11 @@ Next == \/ Running /\ \E o \in CandInit(st) : Do(o)
         \/ Running /\ \E o \in CandCatN(st) : Do(o)
         \/ Running /\ Len(hist) <= 1 /\ \E o \in CandStreams(st) : Do(o)
         \/ Running /\ Len(hist) <= 1 /\ \E o \in CandGroups(st) : Do(o)
+        \/ Running /\ Len(hist) <= 1 /\ \E o \in CandPark(st) : Do(o)
         \/ Finish
 Spec == Init /\ [][Next]_vars
-View == <<st, done>>
+\* (family calls that end in the same state are different plans)
+View == <<st, done, IF FamDone THEN <<hist[Len(hist)]>> ELSE <<>> >>
 Emit == ~done \/ PrintT(<<"PLAN", ToJson(Predict(hist))>>)
 \* per-transition emission (ACTION_CONSTRAINT, with VIEW): every transition of the state graph once, with the
 \* shortest history that reaches its source state
